@@ -232,6 +232,14 @@ func init() {
 			fr.i.sched.atomicYield = a[0].(bool)
 			return nil, true
 		},
+		"SetGob": func(fr *frame, a []value) (value, bool) {
+			if fr.i.hooks == nil {
+				fr.i.hooks = map[string]value{}
+			}
+			fr.i.hooks["gob.enc"] = a[0]
+			fr.i.hooks["gob.dec"] = a[1]
+			return nil, true
+		},
 		"SetHook": func(fr *frame, a []value) (value, bool) {
 			if fr.i.hooks == nil {
 				fr.i.hooks = map[string]value{}
